@@ -350,6 +350,11 @@ class Skel:
                     continue
                 init = kids(v)[0] if kids(v) else None
                 if (v.get("ty") or "").rstrip().endswith("&"):
+                    key = self.lvalue(init) if init is not None else None
+                    if key is not None:
+                        self.alias[v["did"]] = key          # a reference local names the object
+                    elif init is not None:
+                        self.env[v["did"]] = self.ev(init)  # const reference: its value at the declaration
                     continue
                 self.env[v["did"]] = self.ev(init) if init is not None else None
             return
